@@ -368,6 +368,16 @@ def presence_not_truthiness(P: Project, R: Report) -> None:
                         sites.append((str(k), x))
                 elif call_name(x) == "bool":
                     sites += truth_uses(a0)
+        # … nor on whether it is null: `"result": null` is what a method with nothing to return answers
+        for x in walk_local(f.node):
+            if isinstance(x, ast.Compare) and len(x.ops) == 1 and isinstance(x.ops[0], (ast.Is, ast.IsNot, ast.Eq, ast.NotEq)):
+                a_, b_ = x.left, x.comparators[0]
+                for m_, o_ in ((a_, b_), (b_, a_)):
+                    k_ = member_read(m_)
+                    if k_ is not None and isinstance(o_, ast.Constant) and o_.value is None and isinstance(m_, ast.Call) and len(m_.args) == 1:
+                        n += 1
+                        R.ob("R3", f"{f.qual}: member `{k_}` is classified by presence, not by whether its value is null", k_ != "result", f"{f.module.rel}:{x.lineno}",
+                             f"`{ast.unparse(x)[:70]}` takes a null `{k_}` for an absent member: the success response `{{\"id\": 3, \"result\": null}}` (a method with nothing to return) has no result by this test and is rejected as an invalid structure")
         for k, node in sites:
             n += 1
             R.ob("R3", f"{f.qual}: member `{k}` is classified by presence, not by the truth of its value", k not in LEGAL_FALSY and k != "?", f"{f.module.rel}:{node.lineno}",
@@ -422,6 +432,10 @@ def kind_table(P: Project, R: Report) -> None:
             has = lambda s: s != "absent"
             region2 = {f"'id' in {dp}": has(idv), f"'method' in {dp}": has(mv), f"'result' in {dp}": has(rv), f"'error' in {dp}": has(ev),
                        f"{dp}.get('jsonrpc') != '2.0'": False, f"isinstance({dp}, list)": False, f"isinstance({dp}, dict)": True, f"not isinstance({dp}, dict)": False}
+            for k_, s_ in (("id", idv), ("method", mv), ("result", rv), ("error", ev)):
+                # `.get(k) is None` holds for an absent member and for an explicit null alike
+                region2[f"{dp}.get('{k_}') is None"] = s_ != "value"
+                region2[f"{dp}.get('{k_}') is not None"] = s_ == "value"
             rr = decide(cascade_fn, region2)
             outs = set()
             for k, v, _nd in rr:
